@@ -272,7 +272,15 @@ def run_case(case):
                 while True:
                     while not self.q:
                         self.waiter = loop.create_future()
-                        await self.waiter
+                        rt = getattr(self, "read_ticks", None)
+                        if rt is not None:
+                            # a real transport bounds every read of the body by the client's read timeout
+                            try:
+                                await asyncio.wait_for(asyncio.shield(self.waiter), rt * vloop.TICK)
+                            except asyncio.TimeoutError:
+                                raise httpx.ReadTimeout("timed out reading the event stream")
+                        else:
+                            await self.waiter
                     item = self.q.popleft()
                     if item is None:
                         return
@@ -366,14 +374,21 @@ def run_case(case):
                     t_get = loop.ticks
                     obs["get"] = [t_get, str(request.url)]
                     obs["get_hdr"] = {k.lower(): v for k, v in request.headers.items()}
-                    if conn["k"] == "hang":
-                        await loop.create_future()
+                    read_s = (request.extensions.get("timeout") or {}).get("read")
+                    read_ticks = None if read_s is None else int(round(read_s * vloop.TICKS_PER_S))
+                    if conn["k"] == "hang" or (read_ticks is not None and conn.get("at", 0) > read_ticks):
+                        if read_ticks is None:
+                            await loop.create_future()
+                        await at_future(t_get + read_ticks)
+                        raise httpx.ReadTimeout("timed out waiting for the response", request=request)
                     await at_future(t_get + conn.get("at", 0))
                     if conn["k"] == "error":
                         raise make_exc(conn.get("exc_class", "ConnectError"), request, "scripted connect error")
                     if conn["k"] == "status":
                         return httpx.Response(conn["code"], text="scripted status")
                     stream = ScriptedStream(S)
+                    if case.get("stream_read_timeout"):
+                        stream.read_ticks = read_ticks
                     w = Writer(stream, case.get("bounds", []))
                     state["writer"] = w
                     for tick, hx in case.get("chunks", []):
@@ -409,6 +424,10 @@ def run_case(case):
                 ev = r.get("ev")
                 post = r["post"]
                 w = state.get("writer")
+                # what a real HTTP transport does with the client's Timeout object: waiting for the
+                # response is bounded by its `read` member (None = unbounded)
+                read_s = (request.extensions.get("timeout") or {}).get("read")
+                read_ticks = None if read_s is None else int(round(read_s * vloop.TICKS_PER_S))
 
                 def sched_event():
                     if ev is not None and w is not None:
@@ -422,8 +441,14 @@ def run_case(case):
                 else:
                     sched_event()
                     done = at_future(now + post["d"])
-                await done
                 k = post["k"]
+                if k == "hang" or (read_ticks is not None and post["d"] > read_ticks):
+                    # the server accepted the request and never answers it (or later than the client waits)
+                    if read_ticks is None:
+                        await loop.create_future()
+                    await at_future(now + read_ticks)
+                    raise httpx.ReadTimeout("timed out waiting for the response", request=request)
+                await done
                 if k == "exc":
                     raise make_exc(post.get("exc_class"), request, post.get("exc_text", "scripted POST failure"))
                 if k == "200":
